@@ -593,6 +593,7 @@ func init() {
 		// ---------------------------------------------------------------------------------- truncateGlobally
 		gmin, gmax := int64(-1), int64(-1)
 		deltaIsLen, dryDeltaSubtracts := false, false
+		accountsRefused := false
 		gd := funcDecl(f, "Service", "truncateGlobally")
 		if gd == nil {
 			problem("partition.Service.truncateGlobally not found")
@@ -660,6 +661,60 @@ func init() {
 						}
 					}
 				})
+			}
+			// does the pass account for what the inner truncate removed also when the drop is refused? D := … deleteJournal(…) …;
+			// `<total> -= <entry>.AfterSize` stands inside `if D { … }` (no) or outside of it (yes)
+			dropVar := ""
+			var subStmt *ast.AssignStmt
+			var dropIfs []*ast.IfStmt
+			pp.walk(gd, 1, func(n ast.Node, inHelper bool) {
+				if inHelper {
+					return
+				}
+				switch s := n.(type) {
+				case *ast.AssignStmt:
+					if len(s.Lhs) == 1 && len(s.Rhs) == 1 {
+						if id, ok := s.Lhs[0].(*ast.Ident); ok && callsMethod(s.Rhs[0], "deleteJournal") {
+							dropVar = id.Name
+						}
+						if s.Tok == token.SUB_ASSIGN && selName(s.Rhs[0]) == "AfterSize" {
+							subStmt = s
+						}
+					}
+				case *ast.IfStmt:
+					if id, ok := s.Cond.(*ast.Ident); ok && dropVar != "" && id.Name == dropVar {
+						dropIfs = append(dropIfs, s)
+					}
+				}
+			})
+			if dropVar == "" || subStmt == nil {
+				problem("partition.Service.truncateGlobally: the drop flag (… deleteJournal(…)) or the statement `<total> -= <entry>.AfterSize` not found")
+			} else {
+				accountsRefused = true
+				for _, is := range dropIfs {
+					if subStmt.Pos() >= is.Body.Pos() && subStmt.End() <= is.Body.End() {
+						accountsRefused = false
+					}
+				}
+				// the entry's Deleted flag: `= true` inside `if D` (old shape) or `= D` (new shape); anything else is unknown
+				okFlag := false
+				ast.Inspect(gd.Body, func(m ast.Node) bool {
+					as, ok := m.(*ast.AssignStmt)
+					if !ok || len(as.Lhs) != 1 || len(as.Rhs) != 1 || selName(as.Lhs[0]) != "Deleted" {
+						return true
+					}
+					rhs := c09Norm(as.Rhs[0])
+					if accountsRefused && rhs == dropVar {
+						okFlag = true
+					}
+					if !accountsRefused && rhs == "true" {
+						okFlag = true
+					}
+					return true
+				})
+				if !okFlag {
+					problem("partition.Service.truncateGlobally: the entry's Deleted flag is not set as the accounting shape expects (true under `if deleted`, or = deleted)")
+				}
 			}
 			if gmin < 0 || gmax < 0 {
 				problem("partition.Service.truncateGlobally: inner truncate call with literal MinSrcSize/MaxSrcSize not found")
@@ -736,6 +791,27 @@ func init() {
 			})
 			if !insertFound {
 				problem("partition.Service.Truncate: sort.Search predicate of the sorted insertion not found")
+			}
+		}
+
+		// ---------------------------------------------------------------------------------- Service.Truncate: serialised by a mutex
+		// the first statements of Truncate: `<recv>.<m>.Lock()` followed by `defer <recv>.<m>.Unlock()` on the same field
+		serialized := false
+		if td := funcDecl(f, "Service", "Truncate"); td != nil && td.Body != nil {
+			locked := ""
+			for _, st := range td.Body.List {
+				if es, ok := st.(*ast.ExprStmt); ok {
+					if ce, ok := es.X.(*ast.CallExpr); ok && selName(ce.Fun) == "Lock" && len(ce.Args) == 0 && locked == "" {
+						locked = c09Norm(ce.Fun.(*ast.SelectorExpr).X)
+						continue
+					}
+				}
+				if ds, ok := st.(*ast.DeferStmt); ok && locked != "" {
+					if selName(ds.Call.Fun) == "Unlock" && c09Norm(ds.Call.Fun.(*ast.SelectorExpr).X) == locked {
+						serialized = true
+					}
+				}
+				break
 			}
 		}
 
@@ -931,6 +1007,11 @@ func init() {
 		l.p("def totalIsSnapshotSum : Bool := %s", leanBool(snapshotSum))
 		l.p("/-- a chooser loop of `truncate` calls `Size()` again instead of using the snapshot -/")
 		l.p("def loopsRereadChunkSize : Bool := %s", leanBool(loopsReread))
+		l.p("/-- `truncateGlobally` accounts for what the inner `truncate` removed (total, chunk count, `AfterSize = 0`, report) also when")
+		l.p("the partition could not be dropped (`Deleted = deleted`); false: only under `if deleted` (finding F77) -/")
+		l.p("def globalAccountsWhenDropRefused : Bool := %s", leanBool(accountsRefused))
+		l.p("/-- `Service.Truncate` starts with `<mutex>.Lock(); defer <mutex>.Unlock()`: TRUNCATE statements run one after another -/")
+		l.p("def truncateSerialized : Bool := %s", leanBool(serialized))
 		l.p("/-- in a dry run `truncateGlobally` subtracts the entry's `ChunksDeleted` from the count it adds -/")
 		l.p("def dryDeltaSubtractsPhase1 : Bool := %s", leanBool(dryDeltaSubtracts))
 		l.p("/-- the count `truncateGlobally` adds to `ChunksDeleted` starts as `len(<chunk list>)` -/")
